@@ -2008,6 +2008,18 @@ class Interp:
             c = self.ev(e.e)
             if isinstance(c, (Cell, FieldCell)):
                 return (lambda: c.v), (lambda v: setattr(c, 'v', v))
+            if isinstance(c, Obj):
+                # *this = T(...): member-wise copy assignment into the object itself
+                def put(v, c=c):
+                    if not isinstance(v, Obj):
+                        raise Unsupported('assignment of a non-object through *this')
+                    for k_, v_ in v.f.items():
+                        c.f[k_] = deep_copy(v_)
+                self.fire('this-assignment')
+                return (lambda: c), put
+            if isinstance(c, tuple) and c and c[0] == 'vit':
+                lst, i = c[1], c[2]
+                return (lambda: lst[i]), (lambda v: lst.__setitem__(i, v))
             raise Unsupported('deref assignment')
         if getattr(e, 'paren', False):
             pass
@@ -2281,6 +2293,9 @@ class Interp:
                 return o[-1]
             if name == 'front':
                 return o[0]
+            if name in ('insert', 'emplace') and len(args) == 2 and isinstance(args[0], tuple) and args[0][0] == 'vit':
+                o.insert(args[0][2], deep_copy(args[1]))
+                return ('vit', o, args[0][2])
         if isinstance(o, (list, tuple)):
             if name == 'size':
                 return len(o)
@@ -2713,6 +2728,22 @@ class Interp:
             return None
         if s in ('std::move', 'std::forward', 'std::ref', 'std::cref'):
             return A()[0]
+        if s in ('std::lower_bound', 'std::upper_bound', 'std::find', 'std::binary_search') :
+            a = A()
+            if len(a) == 3 and isinstance(a[0], tuple) and a[0][0] == 'vit' and all(not is_sym(x) for x in a[0][1]) and not is_sym(a[2]):
+                import bisect
+                lst, i0, i1 = a[0][1], a[0][2], a[1][2]
+                seg = lst[i0:i1]
+                self.fire('std-algorithm-on-concrete-vector')
+                if s == 'std::lower_bound':
+                    return ('vit', lst, i0 + bisect.bisect_left(seg, a[2]))
+                if s == 'std::upper_bound':
+                    return ('vit', lst, i0 + bisect.bisect_right(seg, a[2]))
+                if s == 'std::find':
+                    return ('vit', lst, i0 + (seg.index(a[2]) if a[2] in seg else len(seg)))
+                k_ = bisect.bisect_left(seg, a[2])
+                return k_ < len(seg) and seg[k_] == a[2]
+            raise Unsupported('%s on a symbolic range' % s)
         if s in ('std::sort', 'std::unique'):
             a = A()
             if len(a) >= 2 and isinstance(a[0], tuple) and a[0][0] == 'vit' and all(not is_sym(x) for x in a[0][1]):
